@@ -187,12 +187,15 @@ def gcd_pair(rng, w):
 
 
 def reps_for(n, base):
-    """fewer lines for wide operands: the model costs ~ n² per line"""
+    """fewer lines for wide operands: the model costs ~ n³ per line (the crate runs `iterations(bits)` BATCHES of
+    62 divsteps, each batch a pass over n limbs)"""
     if n <= 2: return base
     if n <= 4: return max(4, base // 2)
     if n <= 8: return max(3, base // 4)
-    if n <= 16: return max(2, base // 12)
-    return max(1, base // 40)
+    if n <= 12: return max(2, base // 12)
+    if n <= 16: return max(2, base // 24)
+    if n <= 24: return max(1, base // 60)
+    return max(1, base // 120)
 
 
 def gen(tier, rng):
@@ -212,9 +215,15 @@ def gen(tier, rng):
             for a in vals[: (len(vals) if n <= 8 else 2)]:
                 out(f"c10.u.inv_mod2k {n} {hx(a)} {k}")
                 out(f"c10.u.inv_mod2k_vartime {n} {hx(a)} {k}")
+        # k > BITS (outside C10's k <= BITS; inv_mod2k_vartime panicked there before /repo 8dd1192): the rounds
+        # beyond BITS contribute nothing, all forms agree on the inverse modulo 2^BITS
+        for k in [w + 1, w + 63, w + 64, 2 * w, 2 * w + 3] + ([4099] if n <= 4 else []):
+            for a in [rng.getrandbits(w) | 1, value(rng, n), 1, (1 << w) - 1]:
+                out(f"c10.u.inv_mod2k {n} {hx(a)} {k}")
+                out(f"c10.u.inv_mod2k_vartime {n} {hx(a)} {k}")
     for l in boxed:
         w = 64 * l
-        ks = sorted({0, 1, 64, w - 1, w} | {rng.randrange(w + 1) for _ in range(6 if l > 4 else 20)})
+        ks = sorted({0, 1, 64, w - 1, w, w + 1, 2 * w} | {rng.randrange(w + 1) for _ in range(6 if l > 4 else 20)})
         for k in ks:
             for a in [rng.getrandbits(w) | 1, value(rng, l)] + ([0, 1, (1 << w) - 1] if k in (0, 1, w) else []):
                 out(f"c10.b.inv_mod2k {l} {hx(a)} {k}")
@@ -229,8 +238,10 @@ def gen(tier, rng):
         # modulus 0 through the option-returning forms (own op: DESIGN §7 row 8)
         for a in [0, 1, 2, 3, (1 << w) - 1, rng.getrandbits(w)]:
             out(f"c10.u.inv_mod_m0 {n} {hx(a)} {rng.randrange(2)}")
-        if n <= 2 or tier != 'quick':
-            for k in range(w):
+        # every k for s·2^k at the small widths (each line costs a full safegcd run: ~n³), sampled k above
+        every_k = n <= 2 or (tier != 'quick' and n <= 4)
+        for k in (range(w) if every_k else sorted({rng.randrange(w) for _ in range((4 if n <= 8 else 1) if tier == 'quick' else (48 if n <= 8 else 12))})):
+            if every_k or n > 2:
                 s = rng.getrandbits(w - k) | 1
                 directed.append((s << k, [2] if k else []))
         for m, f in directed:
@@ -355,6 +366,8 @@ def gen(tier, rng):
         vt = rng.randrange(2)
         out(f"c10.b.gcd_mixed {la} {hx(a)} {lb} {hx(b)} {vt}")
         out(f"c10.b.odd_gcd_mixed {la} {hx(a | 1)} {lb} {hx(b)} {vt}")
+        if rng.randrange(6) == 0:   # BoxedUint::inv_mod documents the panic for different limb counts
+            out(f"c10.b.inv_mod_mixed {la} {hx(rng.getrandbits(64 * la))} {lb} {hx(rng.getrandbits(64 * lb) | rng.randrange(2))}")
         if rng.randrange(5) == 0:
             m = rng.getrandbits(64 * lb) | 1
             out(f"c10.b.inv_odd_mod_mixed {la} {hx(rng.getrandbits(rng.randrange(1, 64 * la + 1)))} {lb} {hx(m)}")
